@@ -177,6 +177,7 @@ def collect(ctx: Ctx, profile: str):
     warnings.simplefilter("ignore")
     clear_typelib_caches()
     events, meta = [], []
+    respell: list = []
     # second pass: the scalar leaves again in reverse order with warm caches (equal-but-different values
     # of different types, e.g. Fraction(3, 2) and Decimal("1.50"), then meet the value memos in both orders)
     leaves = [T for T in types if T["k"] in ("prim", "enum")]
@@ -198,6 +199,23 @@ def collect(ctx: Ctx, profile: str):
                     w2, _ = vs.out_of(typelib.marshal, rv, t=ann)
             events.append({"ev": "roundtrip", "T": T, "v": vt, "w": w, "r": r, "w2": w2, "amb": amb, "ambw": ambw})
             meta.append((j, repr(v)[:100]))
+            if j == 0 and T["k"] in ("coll", "map", "tup", "union") and not union_sigs(T, defs):
+                respell.append((T, v, vt, amb, ambw))
+    # the same annotations spelled anew at every call site, as users write them inline: `marshal(v, t=list[int])` makes a new
+    # annotation object per call, which dies with the call -- three rounds over a sample, other types in between (the object of
+    # the first spelling may live on in a memo key; what is served to the later, short-lived ones is the subject here)
+    sample = rng.sample(respell, min(len(respell), 60 if profile == "quick" else 400))
+    for rnd in range(3):
+        rng.shuffle(sample)
+        for T, v, vt, amb, ambw in sample:
+            w, wv = vs.out_of(typelib.marshal, v, t=env.annotation(T))
+            r = w2 = {"k": "raised", "e": "skipped"}
+            if w["k"] == "ok":
+                r, rv = vs.out_of(typelib.unmarshal, env.annotation(T), wv)
+                if r["k"] == "ok":
+                    w2, _ = vs.out_of(typelib.marshal, rv, t=env.annotation(T))
+            events.append({"ev": "roundtrip", "T": T, "v": vt, "w": w, "r": r, "w2": w2, "amb": amb, "ambw": ambw})
+            meta.append((0, "respelled round %d: %s" % (rnd, repr(v)[:80])))
     return events, meta, model, len(types)
 
 
